@@ -105,6 +105,17 @@ def gen(rng, tier, n):
             ops.append({"op": "resolve-desc", "args": {"desc": g, "loader": rng.choice(["", "", "error", "nil", "self", "wrong", "node", "validate-defaults"]),
                                                         "base": rng.choice(["", "", "http://x.test/r.json", "::", "http://x.test/r#frag", "rel/ative"]),
                                                         "ginsts": ginsts}, "meta": {"graph": True}})
+        elif r < 0.64:
+            # Equal on two representations (often of one and the same Go type: identical array / slice / map types have their own paths)
+            j1 = gv.gen_json(rng, 3)
+            j2 = j1 if rng.random() < 0.6 else gv.mutate_leaf(rng, j1)
+            x, y = gv.represent(rng, j1), gv.represent(rng, j2)
+            if isinstance(x, dict) and rng.random() < 0.5:
+                y = gv.represent_as(rng, j2, x["t"]) or y
+            if rng.random() < 0.15:
+                tt = rng.choice(["struct", "func", "chan", "complex128", "map[int]any", "[]struct", "*struct"])
+                y = {"t": tt, "v": None if tt.startswith("*") else []}
+            ops.append({"op": "equal", "args": {"x": x, "y": y}, "meta": {"equal": True}})
         elif r < 0.8:
             j = gv.gen_json(rng, 3)
             doc = gs.gen_document(gs.Ctx(rng, rng.choice(["2020", "7"]), depth=2))
